@@ -56,7 +56,7 @@ def run(ctx: Ctx):
                 tables_total=lambda c, lg, t: (f'C03:tables_total:{lg}', f'{lg}: tables not total', dict(logic=lg, theorem='tables_total'), False))
     from .c02 import write_obligations
     write_obligations(sorted(n for n, d in logicobl.regenerate().items() if 'fatal' not in d))
-    logicobl.decide_rows(ctx, cats, THMS, extra_modules=['Ptx.Props.C03', 'Ptx.Gen.ObMeasure', 'Ptx.Gen.ObHintikka'])
+    logicobl.decide_rows(ctx, cats, THMS, extra_modules=['Ptx.Props.C03', 'Ptx.Gen.ObMeasure'] + write_obligations.modules)
     rng = ctx.rng
     pool = small_sentences()
     logics = sorted(n for n, d in data.items() if 'fatal' not in d)
